@@ -721,15 +721,18 @@ def hist_recv(st, probe):
     receive buffer).  Delivering PDU(frame) to the codec must leave the buffer
     alone, the same buffer presented again must be read the same way, and
     changing it afterwards must not change what was delivered."""
-    from bacpypes.pdu import PDU, Address
+    from bacpypes.pdu import PDU, Address, LocalBroadcast
     u, c, l = stack(st.get("codec", 0))
     keep = bytes.fromhex(st["hex"])
     frame = bytearray(keep)
+    src = Address(("10.1.2.%d" % st.get("src", 3), 47808))
 
     def deliver(source):
         u.got = None
+        # what the UDP director / multiplexer fill in: the sender, and the direct or the broadcast socket
+        dest = {"ucast": lambda: Address(("10.1.2.4", 47808)), "bcast": LocalBroadcast, "none": lambda: None}[st.get("dest", "ucast")]()
         try:
-            l.response(PDU(source, source=Address(("10.1.2.3", 47808)), destination=Address(("10.1.2.4", 47808))))
+            l.response(PDU(source, source=src, destination=dest))
         except KeyError as e:
             return {"r": "unknown", "fn": e.args[0]}, None
         except Exception as e:
@@ -741,9 +744,12 @@ def hist_recv(st, probe):
     if bytes(frame) != keep:
         probe.fail("aliasing", None, "delivering PDU(frame) changed the caller's receive buffer: %d of %d octets left" % (len(frame), len(keep)))
         return reply
+    if st.get("once"):
+        return reply                     # a plain single delivery: repeats are separate steps of the history
     again, _ = deliver(frame)
     if again != reply:
-        probe.fail("not-repeatable", None, "the same buffer delivered again reads %s" % (core.canon(again)[:200],))
+        probe.fail("not-repeatable", None, "the same datagram from the same source delivered a second time in a row gives %s, "
+                   "the first time %s" % (core.canon(again)[:200], core.canon(reply)[:200]))
     outer = PDU(keep)
     third, _ = deliver(outer.pduData)
     if bytes(outer.pduData) != keep:
@@ -778,6 +784,7 @@ def exec_history(steps):
 
 def shrink_history(steps, i):
     def fails(cand):
+        _stacks.clear()                  # candidates start from fresh codecs, as a replay does
         return bool(exec_history(cand)[-1][2])
     if fails([steps[i]]):
         return [steps[i]]
@@ -806,8 +813,8 @@ def run_histories(ctx, stream, histories):
                              steps[i]["op"], what), op="history")
     if ctx.model_ok and cases:
         b = core.Driver("drv_c09").ask(cases)
-        keep = lambda r, a: {k: v for k, v in r.items() if k in a or k in ("r", "k")}
-        b = [keep(r, a) for r, a in zip(b, replies)]
+        # send steps report the octets only (not the BVLPDU-level view of the plain `enc` op)
+        b = [{k: v for k, v in r.items() if k in ("r", "k", "hex")} if c["op"] == "enc" else r for r, c in zip(b, cases)]
         ctx.compare_stream(stream, cases, replies, b, sig=sig)
     else:
         for c in cases:
@@ -952,6 +959,19 @@ def gen_histories(ctx, rng):
         for cdc in (0, 1):
             hs.append([dict(r, codec=cdc), dict(rng.choice(valid), codec=cdc), {"op": "cdec", "hex": rng.choice(good_frames), "codec": cdc},
                        dict(rng.choice(valid), codec=cdc, slot=2), dict(rng.choice(valid), codec=1 - cdc)])
+    # the SAME datagram twice in a row (a repeated Who-Is, a retransmission): same source, broadcast and
+    # unicast destination, also interleaved with others — every datagram handed to the codec is decoded once
+    who_is = "0120ffff00ff1008"
+    dups = [spec_frame([0x0B, who_is]).hex(), spec_frame([0x04, "c0a80709bac0", who_is]).hex(), spec_frame([0x0A, who_is]).hex(),
+            spec_frame([0x09, who_is]).hex(), spec_frame([0x00, 0]).hex(), spec_frame([0x05, 30]).hex()]
+    for fr in dups:
+        other = rng.choice([d for d in dups if d != fr])
+        for dest in ("bcast", "ucast", "none"):
+            one = {"op": "cdec", "hex": fr, "dest": dest, "once": True}
+            hs.append([one, one, one])
+            hs.append([one, dict(one, src=9), one, {"op": "cdec", "hex": other, "dest": dest, "once": True}, one, one])
+            hs.append([one, dict(one, dest="ucast" if dest != "ucast" else "bcast"), one, one, dict(one, codec=1), dict(one, codec=1)])
+            hs.append([{"op": "cdec", "hex": fr, "dest": dest}, {"op": "send", "m": [0x0B, who_is]}, {"op": "cdec", "hex": fr, "dest": dest}])
     n = 120 if ctx.quick else 3000
     for _ in range(n):
         steps = []
@@ -960,7 +980,10 @@ def gen_histories(ctx, rng):
             if r < .15:
                 st = dict(rng.choice(refused))
             elif r < .3:
-                st = {"op": "cdec", "hex": rng.choice(good_frames)}
+                st = {"op": "cdec", "hex": rng.choice(good_frames + dups[:2]), "dest": rng.choice(["bcast", "bcast", "ucast", "none"]),
+                      "src": rng.choice([3, 3, 9])}
+                if rng.random() < .6:
+                    st["once"] = True
             else:
                 code = rng.choice([0x04, 0x04, 0x09, 0x0A, 0x0B, 0x01, 0x03, 0x07, 0x00, 0x08])
                 ln = rng.choice([0, 4, 4, 4, 9])
@@ -1189,7 +1212,7 @@ def sig(case, r):
     if op == "dec":
         return (min(r["fn"], 12), size_class(len(r["data"]) // 2))
     if op == "cdec":
-        return ("unknown",) if r["r"] == "unknown" else m_sig(r["m"])
+        return ("unknown",) if r["r"] == "unknown" else m_sig(r["m"]) if "m" in r else (r.get("r"),)
     if op == "bdec":
         return m_sig(r["m"]) if r.get("r") == "ok" else (r.get("r"),)
     if op == "benc":
